@@ -89,7 +89,7 @@ LOOPS.  K, the CONTINUATION CONTEXT, says what `return v`, the end of the statem
     in a loop body (state s)    return v ↦ .ok (.ret v)   end, continue ↦ .ok (.cont s)                   break ↦ .ok (.brk s)
   LOOP STATE s of a loop = the tuple of the variables that its body (re)binds (assignment, augmented assignment, nested loop
   targets, lists changed by .append/.remove, one entry per attribute of a local object whose attribute is stored) AND that are
-  bound before the loop, in the order in which they were first bound in the function; followed by the body-bound locals DECLARED
+  bound before the loop, in the order in which they were first bound in the function; followed (in alphabetical order) by the body-bound locals DECLARED
   `unbound[τ]` in the signature (carried as `Option τ`, `none` until assigned; reading one is `Py.getBound`: UnboundLocalError).
   A variable bound only inside the body and not declared is local to ONE iteration: reading it at the start of the next
   iteration or after the loop is refused ("not bound on every path"). A state variable must have the same type at the end of the
@@ -111,6 +111,9 @@ DECLARATIONS IN THE SIGNATURE (7th component, a dict, and the `locals` dict) —
   locals {"x": "list[float]"}              element type of a list created empty (`x = []`) and needed before its first append
   locals {"x": "unbound[float]"}           x may be read before it is assigned (bound only in a branch / a loop body)
   {"assume_identity": ["listify"]}         on a list argument the call returns the argument itself (tracklib's `listify`)
+  {"imports": {"f": "util/geometry.py"}}   the name f, which this file binds by exactly one `from … import f` and nowhere else at
+                                           module level, IS the whitelisted function f of that file (cross-file call; the generated
+                                           module imports the other generated module and calls `TV.Gen.<Module>.f`)
 """
 import argparse
 import ast
@@ -134,6 +137,8 @@ WHITELIST = [
      "tuple[float,float]", {"xb": "float"}),
     ("util/geometry.py", "proj_segment", "proj_segment", {"segment": "list[float]", "x": "float", "y": "float"},
      "tuple[float,float,float]", {"xb": "float"}),
+    ("util/geometry.py", "proj_polyligne", "proj_polyligne", {"Xp": "list[float]", "Yp": "list[float]", "x": "float", "y": "float"},
+     "tuple[float,float,float,int]", {"xproj": "unbound[float]", "yproj": "unbound[float]", "iproj": "unbound[int]"}),
     ("util/geometry.py", "triangle_area", "triangle_area",
      {"x0": "float", "y0": "float", "x1": "float", "y1": "float", "x2": "float", "y2": "float"}, "float", {}),
     ("util/geometry.py", "isSegmentIntersects", "isSegmentIntersects", {"segment1": "list[float]", "segment2": "list[float]"}, "bool", {}),
@@ -147,6 +152,9 @@ WHITELIST = [
      {"self": {"xmin": "float", "xmax": "float", "ymin": "float", "ymax": "float", "dX": "float", "dY": "float",
                "csize": "int", "lsize": "int"},
       "coord": {"getX()": "float", "getY()": "float"}}, "optional[tuple[float,float]]", {}),
+    ("core/spatial_index.py", "SpatialIndex.__cellsCrossSegment", "SpatialIndex_cellsCrossSegment",
+     {"self": {"csize": "int", "lsize": "int"}, "coord1": "list[float]", "coord2": "list[float]"}, "list[tuple[int,int]]",
+     {"CELLS": "list[tuple[int,int]]"}, {"imports": {"isSegmentIntersects": "util/geometry.py"}}),
     ("core/spatial_index.py", "SpatialIndex.groundDistanceToUnits", "SpatialIndex_groundDistanceToUnits",
      {"self": {"dX": "float", "dY": "float"}, "distance": "float"}, "int", {}),
     ("core/obs_coords.py", "GeoCoords.toECEFCoords", "GeoCoords_toECEFCoords",
@@ -785,7 +793,8 @@ class FnTranslator:
         self.ofnat |= callee.ofnat
         self.math |= callee.math
         t = self.tmp()
-        binds.append((t, "(%s)" % " ".join([callee.lean] + [m for m in MATH_ORDER if m in callee.math]
+        cname = callee.lean if callee.unit is self.unit else "TV.Gen.%s.%s" % (module_name(callee.unit.path), callee.lean)
+        binds.append((t, "(%s)" % " ".join([cname] + [m for m in MATH_ORDER if m in callee.math]
                                              + (["fuel"] if callee.uses_fuel else []) + args)))
         return Val(t, callee.ret)
 
@@ -1306,6 +1315,8 @@ class FnTranslator:
                 term = v.term
                 if x in self.locals:
                     want = self.locals[x]
+                    if isinstance(want, tuple) and want[0] == "U":
+                        want = want[1]      # declared maybe-unbound: after this assignment it is bound, of type τ
                     if want == "F" and ty in ("F", "I"):
                         term, ty = self.as_float(val, v), "F"
                     elif want == "I" and ty == "F":
@@ -1443,13 +1454,25 @@ class FnTranslator:
 # ----------------------------------------------- one file -----------------------------------------------
 class Unit:
     """one python source file -> one Lean module"""
-    def __init__(self, repo, path, entries):
+    def __init__(self, repo, path, entries, registry=None):
         self.path, self.entries = path, entries
         self.src = os.path.join(repo, "tracklib", path)
         self.done = {}      # python name -> FnTranslator (translated) | None (failed)
         self.out = []       # (lean text | comment)
         self.defs = {}
         self.tree = None
+        self.parse_error = None
+        self.registry = registry if registry is not None else {}      # path -> Unit (cross-file calls)
+        self.imports = []   # other generated modules this one calls into
+
+    def parse(self):
+        if self.tree is None and self.parse_error is None:
+            try:
+                with open(self.src) as fh:
+                    self.tree = ast.parse(fh.read())
+            except (OSError, SyntaxError) as ex:
+                self.parse_error = str(ex).replace("\n", " ")
+        return self.tree is not None
 
     def find(self, qual):
         parts = qual.split(".")
@@ -1552,7 +1575,22 @@ class Unit:
     def lookup(self, pyname, caller):
         entry = [e for e in self.entries if e[1] == pyname]
         if not entry:
-            return None
+            # DECLARED cross-file call: {"imports": {name: "pkg/file.py"}} in the caller's signature, accepted only if this file
+            # binds the name by a `from … import name` (and nowhere else at module level); the callee is the whitelisted
+            # function `name` of that file (that the package re-exports that very function is part of the declaration)
+            path = caller.opts.get("imports", {}).get(pyname) if caller is not None else None
+            other = self.registry.get(path)
+            if other is None or other is self or not other.parse():
+                return None
+            bound = [n for n in self.tree.body if isinstance(n, ast.ImportFrom) and any(a.name == pyname and a.asname is None for a in n.names)]
+            rebound = [n for n in self.tree.body if isinstance(n, (ast.FunctionDef, ast.ClassDef)) and n.name == pyname] + \
+                      [n for n in self.tree.body if isinstance(n, ast.Assign) and any(isinstance(t, ast.Name) and t.id == pyname for t in n.targets)]
+            if len(bound) != 1 or rebound:
+                return None
+            callee = other.lookup(pyname, None)
+            if callee is not None and module_name(other.path) not in self.imports:
+                self.imports.append(module_name(other.path))
+            return callee
         if pyname not in self.done:
             self.run(entry[0])
         return self.done[pyname]
@@ -1575,19 +1613,17 @@ class Unit:
 
     def render(self):
         mod = module_name(self.path)
-        head = ("import TracklibVerif.Model.PyPrelude\n"
+        head = ("import TracklibVerif.Model.PyPrelude\n%s"
                 "/-! GENERATED by tools/py2lean.py from tracklib/%s — do not edit, not under version control.\n"
                 "Semantics of every `Py.*` operation: lean/TracklibVerif/Model/PyPrelude.lean. -/\n"
                 "set_option linter.unusedVariables false\n"
-                "namespace TV.Gen.%s\nopen TV\n\n" % (self.path, mod))
-        try:
-            with open(self.src) as fh:
-                self.tree = ast.parse(fh.read())
-        except (OSError, SyntaxError) as ex:
-            return head + "-- NOT TRANSLATED: cannot read / parse the source: %s\n\nend TV.Gen.%s\n" % (str(ex).replace("\n", " "), mod)
+                "namespace TV.Gen.%s\nopen TV\n\n")
+        if not self.parse():
+            return head % ("", self.path, mod) + "-- NOT TRANSLATED: cannot read / parse the source: %s\n\nend TV.Gen.%s\n" % (self.parse_error, mod)
         for e in self.entries:
             self.run(e)
-        return head + "\n".join(self.out) + "\nend TV.Gen.%s\n" % mod
+        imps = "".join("import TracklibVerif.Gen.%s\n" % m for m in self.imports)
+        return head % (imps, self.path, mod) + "\n".join(self.out) + "\nend TV.Gen.%s\n" % mod
 
 
 def module_name(path):
@@ -1605,8 +1641,11 @@ def main():
     for e in WHITELIST:
         files.setdefault(e[0], []).append(e)
     outs = {}
+    registry = {}
     for path, entries in files.items():
-        outs[module_name(path) + ".lean"] = Unit(a.repo, path, entries).render()
+        registry[path] = Unit(a.repo, path, entries, registry)
+    for path, u in registry.items():
+        outs[module_name(path) + ".lean"] = u.render()
     if a.print:
         for k, v in outs.items():
             print("-- ==== %s ====\n%s" % (k, v))
